@@ -29,6 +29,7 @@ class SiteVisitor(ast.NodeVisitor):
     def __init__(self, rel):
         self.rel = rel
         self.stack = []
+        self.scopes = []
         self.sites = []
         self.seeds = []
 
@@ -37,13 +38,55 @@ class SiteVisitor(ast.NodeVisitor):
 
     def visit_ClassDef(self, node):
         self.stack.append(node.name)
+        self.scopes.append("class")
         self.generic_visit(node)
+        self.scopes.pop()
         self.stack.pop()
 
     def visit_FunctionDef(self, node):
+        # memoising decorators keep results across calls (and across runs in one process)
+        for d in node.decorator_list:
+            src = ast.unparse(d)
+            if any(k in src for k in ("lru_cache", "functools.cache", "cached_property")) or src == "cache":
+                self.sites.append((self.rel, ".".join(self.stack + [node.name]), "memo-decorator"))
         self.stack.append(node.name)
+        self.scopes.append("def")
         self.generic_visit(node)
+        self.scopes.pop()
         self.stack.pop()
+
+    def visit_Global(self, node):
+        self.add("global-statement:" + ",".join(node.names))
+
+    MUTABLE_CALLS = ("dict", "list", "set", "defaultdict", "OrderedDict", "Counter", "deque", "WeakValueDictionary")
+
+    def _shared_mutable(self, targets, value):
+        """a mutable container bound at module or class level is shared by every instance and every
+        run in the process: state outside (configuration, seed)"""
+        if self.scopes and self.scopes[-1] == "def":
+            return
+        if value is None:
+            return
+        mutable = isinstance(value, (ast.Dict, ast.List, ast.Set, ast.DictComp, ast.ListComp, ast.SetComp))
+        if isinstance(value, ast.Call):
+            f = value.func
+            name = f.id if isinstance(f, ast.Name) else (f.attr if isinstance(f, ast.Attribute) else "")
+            mutable = name in self.MUTABLE_CALLS
+        if not mutable:
+            return
+        for t in targets:
+            nm = ast.unparse(t)
+            if nm == "__all__":
+                continue
+            self.sites.append((self.rel, self.qual(), "shared-mutable:" + nm))
+
+    def visit_Assign(self, node):
+        self._shared_mutable(node.targets, node.value)
+        self.generic_visit(node)
+
+    def visit_AnnAssign(self, node):
+        self._shared_mutable([node.target], node.value)
+        self.generic_visit(node)
 
     visit_AsyncFunctionDef = visit_FunctionDef
 
